@@ -13,19 +13,19 @@ TRUST = ("Trusted base: rustc, num-bigint, sha2/sha3, proptest (and libFuzzer in
 # id -> (technique, level text, design_ref, extra level_note)
 CHECKS = {
  "C01": ("model-based stateful property testing (proptest register-machine programs vs affine chord-and-tangent model)",
-         "Generated programs of group operations over a register file of points of every class and Jacobian representative are executed by the crate and by an independent affine model in lock-step; every register is compared after every step, exceptional branches (P=Q, P=-Q, identity, same-y, order-3, equal points in different representatives, batch with identity) are counted per class. Representatives with related coordinates (Y = 1/2, Y = Z, X = Y ...), points with structured x. Histories: thousands of distinct arguments through the operation on one thread with re-evaluation of earlier ones (bounded memos), and 16 threads alternating between two arguments against the single-threaded reference.",
+         "Generated programs of group operations over a register file of points of every class and Jacobian representative are executed by the crate and by an independent affine model in lock-step; every register is compared after every step, exceptional branches (P=Q, P=-Q, identity, same-y, order-3, equal points in different representatives, batch with identity) are counted per class. Representatives with related coordinates (Y = 1/2, Y = Z, X = Y ...), points with structured x. Histories: thousands of distinct arguments through the operation on one thread with re-evaluation of earlier ones (bounded memos), and 16 threads alternating between two arguments against the single-threaded reference. Representatives chosen so that the intermediates of the next (mixed) addition are related (r = cH).",
          "5/C01", ""),
  "C02": ("property-based differential testing against model [k]P + exhaustive enumeration of single-bit scalars, windows and recommendations",
-         "Every multiplication path (mul_assign, CurveAffine::mul, precomp_3/256 tables, Wnaf in both staging orders and shared variants, hook path with explicit windows 2..=22) is compared with the model's [k]P on structured scalars and all point classes; wNAF context reuse is explored as generated histories compared with a fresh context; the finite sub-domains (256 single-bit scalars x paths, every recommended window, recommendation range) are enumerated. Scalars at multiples of r plus small offsets (ladder revisits its base). Histories: thousands of distinct arguments through the operation on one thread with re-evaluation of earlier ones (bounded memos), and 16 threads alternating between two arguments against the single-threaded reference.",
+         "Every multiplication path (mul_assign, CurveAffine::mul, precomp_3/256 tables, Wnaf in both staging orders and shared variants, hook path with explicit windows 2..=22) is compared with the model's [k]P on structured scalars and all point classes; wNAF context reuse is explored as generated histories compared with a fresh context; the finite sub-domains (256 single-bit scalars x paths, every recommended window, recommendation range) are enumerated. Scalars at multiples of r plus small offsets (ladder revisits its base). Histories: thousands of distinct arguments through the operation on one thread with re-evaluation of earlier ones (bounded memos), and 16 threads alternating between two arguments against the single-threaded reference. Scalars at coincidences of the interleaved comb of mul_precomp_256.",
          "5/C02", "Hook: verif_wnaf wrappers (windows not reachable through Wnaf)."),
  "C03": ("property-based testing against a textbook ate pairing over a flat Fq12 model and the published e(g1,g2)",
-         "Pairs with known discrete logs incl. identities and scalars >= r: exact agreement with an independent textbook pairing on a subset, bilinearity against the published e(g1,g2) raised to ab in the model, non-degeneracy, order, call direction; operands computed by the crate's own arithmetic (identities reached by P + (-P), [r]P); call histories on related points (negations, beta-twists) compared with the textbook value. A long history of thousands of pairings with distinct arguments on one thread, earlier pairs again against published^(ab).",
+         "Pairs with known discrete logs incl. identities and scalars >= r: exact agreement with an independent textbook pairing on a subset, bilinearity against the published e(g1,g2) raised to ab in the model, non-degeneracy, order, call direction; operands computed by the crate's own arithmetic (identities reached by P + (-P), [r]P); call histories on related points (negations, beta-twists) compared with the textbook value. A long history of thousands of pairings with distinct arguments on one thread, earlier pairs again against published^(ab). Projective arguments in generated representatives (scale factors from all of Fq2).",
          "5/C03", ""),
  "C04": ("property-based differential testing of the four decoders against a model decoder (accepted point or first failing stage)",
-         "Structured byte strings (valid encodings of every point class incl. each small prime order, all 8 flag combinations, out-of-range components, x without root, uniform bytes) are decoded by the crate (checked and unchecked) and by a model decoder that returns the point or the first failing validation stage; every outcome cell per format is populated and counted. Provenance: the checked decoder applied to the crate's own re-encoding of an unchecked-decoded point must give the verdict of the bytes. Curve points with x just below the modulus. Histories: thousands of distinct arguments through the operation on one thread with re-evaluation of earlier ones (bounded memos), and 16 threads alternating between two arguments against the single-threaded reference.",
+         "Structured byte strings (valid encodings of every point class incl. each small prime order, all 8 flag combinations, out-of-range components, x without root, uniform bytes) are decoded by the crate (checked and unchecked) and by a model decoder that returns the point or the first failing validation stage; every outcome cell per format is populated and counted. Provenance: the checked decoder applied to the crate's own re-encoding of an unchecked-decoded point must give the verdict of the bytes. Curve points with x just below the modulus. Histories: thousands of distinct arguments through the operation on one thread with re-evaluation of earlier ones (bounded memos), and 16 threads alternating between two arguments against the single-threaded reference. Periodic junk behind every flag combination; subgroup points with coordinates in special numeric bands (searched corpus).",
          "5/C04", ""),
  "C05": ("property-based round-trip and byte-exact differential testing against a model ZCash encoder",
-         "Both encodings of points of every class (affine and via generated projective representatives) are compared byte-for-byte with an encoder written from the format README and decoded back; in the reverse direction every accepted byte string must re-encode to itself. The EncodedPoint value returned by the encoder is decoded directly (no copy through bytes); points with structured x (just below the modulus, shared leading bits). Histories: thousands of distinct arguments through the operation on one thread with re-evaluation of earlier ones (bounded memos), and 16 threads alternating between two arguments against the single-threaded reference.",
+         "Both encodings of points of every class (affine and via generated projective representatives) are compared byte-for-byte with an encoder written from the format README and decoded back; in the reverse direction every accepted byte string must re-encode to itself. The EncodedPoint value returned by the encoder is decoded directly (no copy through bytes); points with structured x (just below the modulus, shared leading bits). Histories: thousands of distinct arguments through the operation on one thread with re-evaluation of earlier ones (bounded memos), and 16 threads alternating between two arguments against the single-threaded reference. Curve points from a prescribed ordinate (limbs tying with (q-1)/2); searched subgroup points with banded coordinates.",
          "5/C05", ""),
  "C06": ("property-based differential testing against an RFC 9380 model pipeline + RFC known-answer vectors",
          "hash_to_curve / encode_to_curve for both groups and four expanders on generated (msg, dst) are compared with a from-the-RFC pipeline (exact point equality, model subgroup test, determinism); four RFC 9380 appendix-J vectors are checked directly. Related requests incl. msg|tag boundary shifts and out-of-domain calls in between. Histories: thousands of distinct arguments through the operation on one thread with re-evaluation of earlier ones (bounded memos), and 16 threads alternating between two arguments against the single-threaded reference.",
@@ -34,43 +34,43 @@ CHECKS = {
          "The membership predicate is compared with (identity or on-curve and [r]P = O) on arbitrary pairs, every small-order class, twists and off-curve pairs; programs built only from safe sources and safe operations are executed and after every step the value must be a member (sources tested by the model, derived values equal to the model's group-law value); sources include arbitrary byte strings fed to the checked decoders / deserializers (whatever is accepted must be a member) and order-r points of isomorphic curves for the predicate. Predicate histories: after decoding / testing a point, the predicate on pairs derived from it (same x other y, ...). Histories: thousands of distinct arguments through the operation on one thread with re-evaluation of earlier ones (bounded memos), and 16 threads alternating between two arguments against the single-threaded reference.",
          "5/C07", ""),
  "C08": ("property-based differential testing against BigUint arithmetic",
-         "Every Fq / Fr operation and every FqRepr / FrRepr operation named by the property is compared with integer arithmetic on boundary-heavy generated operands; hard-coded constants are observed through behaviour. The checks are written against the concrete types with method-call syntax (inherent methods would shadow the derived trait methods), operands include Montgomery-limb patterns and limb-spanning offsets from the modulus, and every result must also be the canonical element for the crate's own == / is_zero.",
+         "Every Fq / Fr operation and every FqRepr / FrRepr operation named by the property is compared with integer arithmetic on boundary-heavy generated operands; hard-coded constants are observed through behaviour. The checks are written against the concrete types with method-call syntax (inherent methods would shadow the derived trait methods), operands include Montgomery-limb patterns and limb-spanning offsets from the modulus, and every result must also be the canonical element for the crate's own == / is_zero. Montgomery limb pairs with products at 2^127 / 2^128, limbs equal to the modulus limbs, limbs tying with p and (p-1)/2.",
          "5/C08", ""),
  "C09": ("property-based differential testing against a flat quotient-ring model of Fq12",
-         "Fq2 / Fq6 / Fq12 ring operations, inverses, non-residue multiplications, norm, conjugation, Frobenius with arbitrary powers and the sparse products are compared with arithmetic in Fq[w]/(w^12-2w^6+2) (Frobenius by generic powering) on structurally diverse elements. Elements of norm one over every subfield (unitary elements). Histories: thousands of distinct arguments through the operation on one thread with re-evaluation of earlier ones (bounded memos), and 16 threads alternating between two arguments against the single-threaded reference.",
+         "Fq2 / Fq6 / Fq12 ring operations, inverses, non-residue multiplications, norm, conjugation, Frobenius with arbitrary powers and the sparse products are compared with arithmetic in Fq[w]/(w^12-2w^6+2) (Frobenius by generic powering) on structurally diverse elements. Elements of norm one over every subfield (unitary elements). Histories: thousands of distinct arguments through the operation on one thread with re-evaluation of earlier ones (bounded memos), and 16 threads alternating between two arguments against the single-threaded reference. Components related to each other (equal, negated, times v, swapped).",
          "5/C09", ""),
  "C10": ("property-based testing with exponent bookkeeping against one model multiplication + exhaustive enumeration of the window heuristic",
-         "Lists of points with known discrete logs (duplicates, inverse pairs, identities, zero and word-straddling scalars, mismatched lengths, lengths at every window-selection boundary) go through the default, explicit-window (1..=20) and table-driven entry points and are compared with [sum k_i a_i]G; find_pippinger_window is enumerated; tables are used buffers with stale content; valid calls after a rejected out-of-domain call on the same thread. Lists beyond 2^20 entries. Histories: thousands of distinct arguments through the operation on one thread with re-evaluation of earlier ones (bounded memos), and 16 threads alternating between two arguments against the single-threaded reference.",
+         "Lists of points with known discrete logs (duplicates, inverse pairs, identities, zero and word-straddling scalars, mismatched lengths, lengths at every window-selection boundary) go through the default, explicit-window (1..=20) and table-driven entry points and are compared with [sum k_i a_i]G; find_pippinger_window is enumerated; tables are used buffers with stale content; valid calls after a rejected out-of-domain call on the same thread. Lists beyond 2^20 entries. Histories: thousands of distinct arguments through the operation on one thread with re-evaluation of earlier ones (bounded memos), and 16 threads alternating between two arguments against the single-threaded reference. Lists of 65536 terms sharing one scalar; whole 64-bit words zero in every scalar.",
          "5/C10", ""),
  "C11": ("property-based testing of pairing products against the published e(g1,g2) raised to the exponent sum in the model",
-         "Generated lists of pairs with identities, repetitions and two-/three-term cancellations: joint Miller loop = product of singles = published^(sum a_i b_i), exactly 1 on cancellation, helper functions agree, prepared elements re-used in other orders and sub-lists. Very long lists around power-of-two sizes up to 1026 pairs; prepared elements copied into occupied slots with clone_from. Histories: thousands of distinct arguments through the operation on one thread with re-evaluation of earlier ones (bounded memos), and 16 threads alternating between two arguments against the single-threaded reference.",
+         "Generated lists of pairs with identities, repetitions and two-/three-term cancellations: joint Miller loop = product of singles = published^(sum a_i b_i), exactly 1 on cancellation, helper functions agree, prepared elements re-used in other orders and sub-lists. Very long lists around power-of-two sizes up to 1026 pairs; prepared elements copied into occupied slots with clone_from. Histories: thousands of distinct arguments through the operation on one thread with re-evaluation of earlier ones (bounded memos), and 16 threads alternating between two arguments against the single-threaded reference. The pair list passed as six kinds of iterable.",
          "5/C11", ""),
  "C12": ("property-based differential testing against a generic model power f^(3(q^12-1)/r)",
          "Elements of every subfield class, Miller outputs and products: exact equality with square-and-multiply in the flat model ring, failure exactly for 0, multiplicativity, order, subfields to 1. Cyclotomic / GT elements and their inverses, conjugates, Frobenius images; sequences on related arguments (f, conj f, 1/f, ...). Histories: thousands of distinct arguments through the operation on one thread with re-evaluation of earlier ones (bounded memos), and 16 threads alternating between two arguments against the single-threaded reference.",
          "5/C12", ""),
  "C13": ("property-based differential testing against RFC 9380 section 5 written in the model",
-         "expand_message for four expanders on lengths around every block boundary incl. the must-abort class, block reduction on values around multiples of the modulus, hash_to_field for Fq / Fr / Fq2. XMD over six SHA-2 variants (digest not half the block for four of them); two-part blocks whose low part is around small multiples of the modulus at every split position; related requests incl. boundary shifts. Histories: thousands of distinct arguments through the operation on one thread with re-evaluation of earlier ones (bounded memos), and 16 threads alternating between two arguments against the single-threaded reference.",
+         "expand_message for four expanders on lengths around every block boundary incl. the must-abort class, block reduction on values around multiples of the modulus, hash_to_field for Fq / Fr / Fq2. XMD over six SHA-2 variants (digest not half the block for four of them); two-part blocks whose low part is around small multiples of the modulus at every split position; related requests incl. boundary shifts. Histories: thousands of distinct arguments through the operation on one thread with re-evaluation of earlier ones (bounded memos), and 16 threads alternating between two arguments against the single-threaded reference. Exhaustive sweep of every message length (0..=16800 quick, 70000 thorough) and every output length for eight expanders.",
          "5/C13", ""),
  "C14": ("property-based differential testing against the model composition with constructed colliding inputs",
          "map_to_curve and map2_to_curve on generated inputs incl. 0, exceptional roots, u1 = +-u0 and model-constructed partners with coinciding / inverse SSWU images, compared with clear_cofactor(iso(sswu(u0)) + iso(sswu(u1))) in the model; subgroup; no panic. (This check found the defect repaired by the fix: commit.) Inputs constructed by inverting the SSWU map on stage-special points (isogeny kernel, small order, pure cofactor, points shared with the target curve) and backwards from structured intermediates. Histories: thousands of distinct arguments through the operation on one thread with re-evaluation of earlier ones (bounded memos), and 16 threads alternating between two arguments against the single-threaded reference.",
          "5/C14 and 6", ""),
  "C15": ("property-based differential testing against the RFC straight-line SSWU with measured branch-cell coverage",
-         "osswu_map on generated t for both groups compared as affine points with the RFC map; every case classified by the model into its square-root branch cell (16 for G2) and the histogram recorded; the addition chains compared with model powers. Inputs constructed backwards from structured intermediates (N, Zu^2, u^2, x1 of shape (c,0), (0,c), (c,c), (c,-c)); canonical limb combinations. Histories: thousands of distinct arguments through the operation on one thread with re-evaluation of earlier ones (bounded memos), and 16 threads alternating between two arguments against the single-threaded reference.",
+         "osswu_map on generated t for both groups compared as affine points with the RFC map; every case classified by the model into its square-root branch cell (16 for G2) and the histogram recorded; the addition chains compared with model powers. Inputs constructed backwards from structured intermediates (N, Zu^2, u^2, x1 of shape (c,0), (0,c), (c,c), (c,-c)); canonical limb combinations. Histories: thousands of distinct arguments through the operation on one thread with re-evaluation of earlier ones (bounded memos), and 16 threads alternating between two arguments against the single-threaded reference. Inputs constructed from a prescribed output ordinate (cubic solved over Fq).",
          "5/C15", "Hooks: OSSWUMap trait, chains, constants."),
  "C16": ("property-based differential testing against the rational map with frozen RFC tables + homomorphism relation",
-         "isogeny_map on points of the isogenous curves of every class incl. rational kernel and order-121 points in arbitrary Jacobian representatives compared with the affine rational map; identity / kernel to identity; homomorphism with the sum taken by the model law on E'. Structured-x points incl. the points E' shares with the target curve; representatives with related coordinates. Histories: thousands of distinct arguments through the operation on one thread with re-evaluation of earlier ones (bounded memos), and 16 threads alternating between two arguments against the single-threaded reference.",
+         "isogeny_map on points of the isogenous curves of every class incl. rational kernel and order-121 points in arbitrary Jacobian representatives compared with the affine rational map; identity / kernel to identity; homomorphism with the sum taken by the model law on E'. Structured-x points incl. the points E' shares with the target curve; representatives with related coordinates. Histories: thousands of distinct arguments through the operation on one thread with re-evaluation of earlier ones (bounded memos), and 16 threads alternating between two arguments against the single-threaded reference. Roots of every truncation of the map polynomials.",
          "5/C16", "Hooks: IsogenyMap trait, tables (diagnostic). Frozen-table argument in DESIGN.md 2.2."),
  "C17": ("property-based differential testing against model [h_eff]P on the full curve group",
          "clear_h on full-curve, small-order, order l*r and subgroup points in arbitrary representatives compared with [h_eff]P, model subgroup test, additivity, the two addition chains. Representatives with related coordinates (Y = 1/2: doubling keeps Z). Histories: thousands of distinct arguments through the operation on one thread with re-evaluation of earlier ones (bounded memos), and 16 threads alternating between two arguments against the single-threaded reference.",
          "5/C17", "Hooks: ClearH trait, chain wrappers."),
  "C18": ("property-based testing against Euler's criterion, b^2 = a and integer / lexicographic order in the model",
-         "sqrt / legendre / sgn0 / Ord on Fq, Fr, Fq2 on guaranteed residues, guaranteed non-residues, embedded and imaginary elements. Fq2 inputs constructed from a structured intermediate alpha = a^((q-1)/2); Fr inputs with every order of the 2-power part; canonical limb combinations. Histories: thousands of distinct arguments through the operation on one thread with re-evaluation of earlier ones (bounded memos), and 16 threads alternating between two arguments against the single-threaded reference.",
+         "sqrt / legendre / sgn0 / Ord on Fq, Fr, Fq2 on guaranteed residues, guaranteed non-residues, embedded and imaginary elements. Fq2 inputs constructed from a structured intermediate alpha = a^((q-1)/2); Fr inputs with every order of the 2-power part; canonical limb combinations. Histories: thousands of distinct arguments through the operation on one thread with re-evaluation of earlier ones (bounded memos), and 16 threads alternating between two arguments against the single-threaded reference. Elements with a prescribed norm; limbs tying with the modulus.",
          "5/C18", ""),
  "C19": ("property-based testing of SerDes against a model that decides from the bytes alone (value + exact consumption, or error)",
-         "Six types x both flags: written bytes equal the model image; valid, truncated, trailing, wrong-flag, non-reduced, rejected-point and random streams are read through a chunking, counting reader and the outcome is compared with the model's decision. Related streams back to back, multi-item streams through one reader, chunking writers, a failing writer before a good one. Histories: thousands of distinct arguments through the operation on one thread with re-evaluation of earlier ones (bounded memos), and 16 threads alternating between two arguments against the single-threaded reference.",
+         "Six types x both flags: written bytes equal the model image; valid, truncated, trailing, wrong-flag, non-reduced, rejected-point and random streams are read through a chunking, counting reader and the outcome is compared with the model's decision. Related streams back to back, multi-item streams through one reader, chunking writers, a failing writer before a good one. Histories: thousands of distinct arguments through the operation on one thread with re-evaluation of earlier ones (bounded memos), and 16 threads alternating between two arguments against the single-threaded reference. Searched subgroup points with banded coordinates.",
          "5/C19", ""),
  "C20": ("property-based concurrency testing: generated workloads x thread assignments x prefix histories, bit-identical to a sequential run (TSan pass in the thorough tier)",
-         "Generated workloads run sequentially twice (different order / prefixes) and concurrently on 2..16 barrier-released threads sharing a wNAF table and prepared pairing elements; all results must be bit-identical; bursts of 4..16 threads repeating a few operations densely (check-then-use races on process-wide state); the same operations in fresh child processes in different orders (state captured from the first caller); thorough adds a ThreadSanitizer pass. Interleavings are sampled, not enumerated. Reused wNAF contexts across bases and windows; long histories and two-input bursts over 27 operations; sibling hash requests with shifted msg|tag boundary.",
+         "Generated workloads run sequentially twice (different order / prefixes) and concurrently on 2..16 barrier-released threads sharing a wNAF table and prepared pairing elements; all results must be bit-identical; bursts of 4..16 threads repeating a few operations densely (check-then-use races on process-wide state); the same operations in fresh child processes in different orders (state captured from the first caller); thorough adds a ThreadSanitizer pass. Interleavings are sampled, not enumerated. Reused wNAF contexts across bases and windows; long histories and two-input bursts over 27 operations; sibling hash requests with shifted msg|tag boundary. MSMs of 1030 / 4100 terms in histories and bursts.",
          "5/C20", "The OS owns the schedule; see DESIGN.md section 8."),
 }
 
